@@ -80,7 +80,7 @@ def run(tier, seed, replay):
     # ... also when the instruction is run as ONE assembly-mode step (the other public way to clock the sequencer), with and without a key interrupt
     from checks import c11
     from checks import isa_common as ic
-    ltr = [vlib.run_scenario(c11.long_instruction_trace(), "c09-long")[0]]
+    ltr = [vlib.run_scenario(c11.long_instruction_trace(), "c09-long")[0], vlib.run_scenario(c11.bytes_int_trace(range(0, 256, 2)), "c09-int")[0]]
     lres = vlib.validate_traces(ltr, cfg="TraceMachine")
     ic.report_trace_results(v, ltr, lres, "ctl:asmstep", "assembly-step over MUL / DIV")
     cov = {
